@@ -16,6 +16,8 @@ def families(tier):
     yield "C13 structured ref states (default layout)", spaces.c13_default_layout(tier)
     yield "C14 directive placements (length <= 1)", spaces.c14_short()
     yield "C11 decoy sequences (length <= 2)", spaces.c11_short(2)
+    import itertools
+    yield "trees mixing unreadable (invalid UTF-8) files with readable ones: C14 placements interleaved with 108 invalid files", itertools.chain(spaces.c14_short(), spaces.invalid_utf8_files())
     yield "multi-insertion family", spaces.multi_insertion(big_counts=(1000, 5000) if tier == "thorough" else ())
     yield "token sequences of length <= %d" % (3 if tier == "thorough" else 2), spaces.token_sequences(3 if tier == "thorough" else 2)
     yield "real corpora%s" % (" + single-token-edit neighbourhoods" if tier == "thorough" else ""), spaces.corpus_files(tier == "thorough", None if tier == "thorough" else 200_000)
@@ -33,6 +35,13 @@ def judge_tree(tr, v, fam):
     for fr in tr.files:
         v.count()
         strip = cli.token_strip(fr.orig, fr.after1)
+        try:
+            fr.orig.decode("utf-8")
+        except UnicodeDecodeError:
+            # an unreadable file: skipped by both modes; nothing may be reported for it and nothing inserted
+            if fr.check_positions or fr.after1 != fr.orig:
+                v.violation("unreadable-file-reported-or-edited", {"family": fam, "reported": fr.check_positions, "changed": fr.after1 != fr.orig})
+            continue
         if strip is None:
             v.violation("edit-not-token-only", {"family": fam, "file": fr.orig.decode("utf-8", "replace")[:600], "after": fr.after1.decode("utf-8", "replace")[:600]},
                         replay_files={"case.rs": fr.orig})
